@@ -15,7 +15,11 @@ import (
 	"context"
 	"encoding/json"
 	"fmt"
+	"runtime"
 	"testing"
+
+	"github.com/vishvananda/netlink"
+	"github.com/vishvananda/netns"
 
 	corev1 "k8s.io/api/core/v1"
 	k8sErr "k8s.io/apimachinery/pkg/api/errors"
@@ -25,6 +29,7 @@ import (
 
 	aliclient "github.com/AliyunContainerService/terway/pkg/aliyun/client"
 	"github.com/AliyunContainerService/terway/pkg/eni"
+	"github.com/AliyunContainerService/terway/pkg/link"
 	"github.com/AliyunContainerService/terway/pkg/storage"
 	"github.com/AliyunContainerService/terway/pkg/utils"
 	"github.com/AliyunContainerService/terway/rpc"
@@ -155,10 +160,10 @@ func (k *vfC15K8s) PodExist(namespace, name string) (bool, error) {
 	_, ok := k.pods[utils.PodInfoKey(namespace, name)]
 	return ok, nil
 }
-func (k *vfC15K8s) GetServiceCIDR() *types.IPNetSet                 { return &types.IPNetSet{} }
-func (k *vfC15K8s) SetNodeAllocatablePod(count int) error           { return nil }
-func (k *vfC15K8s) PatchNodeAnnotations(map[string]string) error    { return nil }
-func (k *vfC15K8s) PatchPodIPInfo(*daemon.PodInfo, string) error    { return nil }
+func (k *vfC15K8s) GetServiceCIDR() *types.IPNetSet                   { return &types.IPNetSet{} }
+func (k *vfC15K8s) SetNodeAllocatablePod(count int) error             { return nil }
+func (k *vfC15K8s) PatchNodeAnnotations(map[string]string) error      { return nil }
+func (k *vfC15K8s) PatchPodIPInfo(*daemon.PodInfo, string) error      { return nil }
 func (k *vfC15K8s) RecordNodeEvent(eventType, reason, message string) {}
 func (k *vfC15K8s) PatchNodeIPResCondition(corev1.ConditionStatus, string, string) error {
 	return nil
@@ -179,6 +184,7 @@ func (k *vfC15K8s) Node() *corev1.Node                            { return &core
 const (
 	vfC15NilPodInfo = "C15-record-nil-podinfo"
 	vfC15NilNetConf = "C15-record-null-netconf"
+	vfC15NoGateway  = "C15-record-netconf-no-gateway"
 )
 
 func vfC15RunRec(c *vt.Ctx, s vfC15RecScenario) {
@@ -296,3 +302,150 @@ func vfC15RunRec(c *vt.Ctx, s vfC15RecScenario) {
 }
 
 func TestVerifC15StoredRecords(t *testing.T) { vt.Run(t, vfC15GenRec, vfC15RunRec) }
+
+// ---------------------------------------------------------------------------------
+// ruleSync behind its link look-ups: the case runs in a fresh network namespace that
+// holds the pod's host-side veth, and the stored NetConf names the loopback device's MAC
+// as the ENI, so that ruleSync gets to the point where it uses the stored addresses.
+
+type vfC15RuleScenario struct {
+	Kind    string  `json:"kind"`
+	NetConf g.Bytes `json:"net_conf"` // PodResources.NetConf
+	PodName string  `json:"pod_name"`
+	PodNS   string  `json:"pod_ns"`
+	VethIf  string  `json:"veth_if"` // interface name the host veth was created for
+}
+
+func vfC15GenRule(t *rapid.T) vfC15RuleScenario {
+	s := vfC15RuleScenario{Kind: g.Kind(t)}
+	s.PodName, s.PodNS = g.Name(t), g.Name(t)
+	s.VethIf = rapid.SampledFrom([]string{"eth0", "eth0", "eth0", "eth1"}).Draw(t, "vethif")
+	s.NetConf = g.JSONField(t, s.Kind, func(t *rapid.T) []byte { return []byte(g.NetConfJSONFor(t, true)) },
+		[]string{`[null]`, `[{}]`, `[{"BasicInfo":{"PodIP":{}},"ENIInfo":{"MAC":""}}]`,
+			`[{"BasicInfo":{"PodIP":{"IPv4":"x"}},"ENIInfo":{"MAC":""}}]`,
+			`[{"BasicInfo":{"PodIP":{"IPv4":"10.0.0.2"},"GatewayIP":{}},"ENIInfo":{"MAC":"","Trunk":true}}]`,
+			`[{"BasicInfo":{"PodIP":{"IPv4":"10.0.0.2"},"GatewayIP":{"IPv4":"x"}},"ENIInfo":{"MAC":"","Trunk":true,"GatewayIP":{"IPv4":""}}}]`})
+	return s
+}
+
+func vfC15RunRule(c *vt.Ctx, s vfC15RuleScenario) {
+	c.Label("kind:" + s.Kind)
+	var ncs []*rpc.NetConf
+	if err := json.Unmarshal(s.NetConf, &ncs); err != nil {
+		c.Label("depth0-netconf-not-decodable")
+	} else {
+		c.NonTrivial()
+		for _, nc := range ncs {
+			if nc == nil {
+				c.Label("class:null-netconf-entry")
+				if vt.Known(vfC15NilNetConf) {
+					c.Label("known:" + vfC15NilNetConf)
+					return
+				}
+				continue
+			}
+			if nc.BasicInfo != nil && nc.ENIInfo != nil && nc.BasicInfo.PodIP != nil && nc.BasicInfo.GatewayIP == nil {
+				c.Label("class:no-gateway")
+				if vt.Known(vfC15NoGateway) {
+					c.Label("known:" + vfC15NoGateway)
+					return
+				}
+			}
+		}
+	}
+	rec := daemon.PodResources{PodInfo: &daemon.PodInfo{Name: s.PodName, Namespace: s.PodNS, PodNetworkType: daemon.PodNetworkTypeENIMultiIP},
+		NetConf: string(s.NetConf)}
+
+	var err error
+	if why := vfC15InVethNetns(s.PodName, s.PodNS, s.VethIf, func() {
+		before, _ := netlink.RuleList(netlink.FAMILY_ALL)
+		err = ruleSync(context.Background(), rec)
+		after, _ := netlink.RuleList(netlink.FAMILY_ALL)
+		switch {
+		case len(after) > len(before):
+			c.Label("depth3-rules-programmed")
+		case err != nil:
+			c.Label("depth2-route-programming-failed")
+		default:
+			c.Label("depth1-nothing-to-sync")
+		}
+	}); why != "" {
+		c.Inconclusive(why)
+	}
+}
+
+// vfC15InVethNetns runs fn on a locked thread inside a fresh network namespace that holds
+// the host-side veth of the given pod interface (and loopback, up). It returns a reason
+// when the namespace could not be prepared; a panic in fn propagates after the thread
+// has been moved back.
+func vfC15InVethNetns(podName, podNS, ifName string, fn func()) (why string) {
+	runtime.LockOSThread()
+	defer runtime.UnlockOSThread()
+	orig, err := netns.Get()
+	if err != nil {
+		return "netns get"
+	}
+	defer orig.Close()
+	fresh, err := netns.New() // also switches this thread into it
+	if err != nil {
+		return "netns new"
+	}
+	defer func() {
+		_ = netns.Set(orig)
+		_ = fresh.Close()
+	}()
+	if lo, err := netlink.LinkByName("lo"); err == nil {
+		_ = netlink.LinkSetUp(lo)
+	}
+	vethName, _ := link.VethNameForPod(podName, podNS, ifName, "cali")
+	la := netlink.NewLinkAttrs()
+	la.Name = vethName
+	if err := netlink.LinkAdd(&netlink.Veth{LinkAttrs: la, PeerName: "vfc15peer"}); err != nil {
+		return "veth add"
+	}
+	if v, err := netlink.LinkByName(vethName); err == nil {
+		_ = netlink.LinkSetUp(v)
+	}
+	fn()
+	return ""
+}
+
+// Deterministic witnesses of the stored-record findings, printed only while listed open.
+func vfC15Panics(fn func()) (p bool) {
+	defer func() {
+		if recover() != nil {
+			p = true
+		}
+	}()
+	fn()
+	return false
+}
+
+func TestVerifC15KnownWitnessStoredRecords(t *testing.T) {
+	ctx := context.Background()
+	if vt.Known(vfC15NilPodInfo) {
+		db := storage.NewMemoryStorage()
+		_ = db.Put("x", daemon.PodResources{})
+		svc := &networkService{daemonMode: daemon.ModeENIMultiIP, k8s: &vfC15K8s{pods: map[string]*daemon.PodInfo{}}, resourceDB: db,
+			eniMgr: eni.NewManager(0, 0, 0, 0, nil, daemon.EniSelectionPolicyMostIPs, nil)}
+		if vfC15Panics(func() { _ = svc.gcPods(ctx) }) {
+			vt.KnownFindingLine("C15", "a resource-database record without PodInfo (e.g. `{}`) makes networkService.gcPods and eni.Local.load dereference nil (gcPods even tests PodInfo != nil two lines earlier)")
+		}
+	}
+	if vt.Known(vfC15NilNetConf) {
+		rec := daemon.PodResources{PodInfo: &daemon.PodInfo{Name: "p", Namespace: "ns", PodNetworkType: daemon.PodNetworkTypeENIMultiIP}, NetConf: "[null]"}
+		if vfC15Panics(func() { _ = ruleSync(ctx, rec) }) {
+			vt.KnownFindingLine("C15", "a stored NetConf list with a null entry (`[null]`) makes ruleSync dereference nil")
+		}
+	}
+	if vt.Known(vfC15NoGateway) {
+		rec := daemon.PodResources{PodInfo: &daemon.PodInfo{Name: "p", Namespace: "ns", PodNetworkType: daemon.PodNetworkTypeENIMultiIP},
+			NetConf: `[{"BasicInfo":{"PodIP":{"IPv4":"10.0.0.2"}},"ENIInfo":{"MAC":""}}]`}
+		panicked := false
+		if why := vfC15InVethNetns("p", "ns", "eth0", func() { panicked = vfC15Panics(func() { _ = ruleSync(ctx, rec) }) }); why == "" && panicked {
+			vt.KnownFindingLine("C15", "a stored NetConf entry without BasicInfo.GatewayIP makes ruleSync dereference nil once the pod's veth and the ENI are found")
+		}
+	}
+}
+
+func TestVerifC15RuleSync(t *testing.T) { vt.Run(t, vfC15GenRule, vfC15RunRule) }
